@@ -2,7 +2,7 @@ use super::{
   hir_string_manager::StringManager,
   hir_type_conversion::{
     SynthesizedTypes, TypeLoweringManager, TypeSynthesizer, collect_used_generic_types,
-    type_application,
+    collect_used_generic_types_in_body, type_application,
   },
   mir_constant_param_elimination, mir_generics_specialization, mir_tail_recursion_rewrite,
   mir_type_deduplication,
@@ -981,7 +981,7 @@ impl<'a> ExpressionLoweringManager<'a> {
     let parameters = expression.parameters.parameters.iter().map(|it| it.name.name).collect_vec();
     let source_fn_type = expression.common.type_.as_fn().unwrap();
     let (
-      type_parameters,
+      _,
       hir::FunctionType {
         argument_types: fun_type_without_cx_argument_types,
         return_type: fun_type_without_cx_return_type,
@@ -1023,6 +1023,23 @@ impl<'a> ExpressionLoweringManager<'a> {
     lambda_stmts.append(&mut lowered_s);
     self.synthetic_functions.append(&mut synthetic_functions);
 
+    let type_ = hir::FunctionType {
+      argument_types: vec![context_type.dupe()]
+        .into_iter()
+        .chain(fun_type_without_cx_argument_types)
+        .collect_vec(),
+      return_type: fun_type_without_cx_return_type,
+    };
+    // The captured context and the body can mention generic types that do not appear in the
+    // lambda's own signature. They all need to be type parameters of the synthetic function.
+    let generic_types = &self.type_lowering_manager.generic_types;
+    let type_parameters = collect_used_generic_types(&type_, generic_types)
+      .into_iter()
+      .chain(collect_used_generic_types_in_body(&lambda_stmts, &lowered_e, generic_types))
+      .unique()
+      .sorted()
+      .collect_vec();
+
     hir::Function {
       name: fn_name,
       parameters: vec![PStr::UNDERSCORE_THIS]
@@ -1030,13 +1047,7 @@ impl<'a> ExpressionLoweringManager<'a> {
         .chain(expression.parameters.parameters.iter().map(|it| it.name.name))
         .collect_vec(),
       type_parameters,
-      type_: hir::FunctionType {
-        argument_types: vec![context_type.dupe()]
-          .into_iter()
-          .chain(fun_type_without_cx_argument_types)
-          .collect_vec(),
-        return_type: fun_type_without_cx_return_type,
-      },
+      type_,
       body: lambda_stmts,
       return_value: lowered_e,
     }
